@@ -327,3 +327,24 @@
 ; bit j of i
 ;@sig bit : int int -> bool
 (define-fun bit ((i Int) (j Int)) Bool (= (mod (div i (pow2 j)) 2) 1))
+; ---------------------------------------------------------------- parse-time truth under Problem.Model (values 0 / 1 / -1)
+; literal l is true / false under model value m of its variable
+;@sig mtrue : int int -> bool
+(define-fun mtrue ((m Int) (l Int)) Bool (and (not (= m 0)) (= (= m 1) (= (tmod l 2) 0))))
+;@sig mfalse : int int -> bool
+(define-fun mfalse ((m Int) (l Int)) Bool (and (not (= m 0)) (not (= (= m 1) (= (tmod l 2) 0)))))
+; tcount(L, M, n): number of positions k < n whose literal L[k] is true under the model row M
+;@sig tcount : row row int -> int
+(declare-fun tcount ((Array Int Int) Int (Array Int Int) Int Int) Int)
+(assert (forall ((L (Array Int Int)) (lo Int) (M (Array Int Int)) (mo Int) (n Int))
+  (! (= (tcount L lo M mo n)
+        (ite (<= n 0) 0 (+ (tcount L lo M mo (- n 1))
+             (ite (mtrue (select M (+ mo (tdiv (select L (+ lo (- n 1))) 2))) (select L (+ lo (- n 1)))) 1 0))))
+     :pattern ((tcount L lo M mo n)))))
+;@lemma tcount_store_outside
+(assert (forall ((L (Array Int Int)) (j Int) (v Int) (lo Int) (M (Array Int Int)) (mo Int) (n Int))
+  (! (=> (or (< j lo) (>= j (+ lo n))) (= (tcount (store L j v) lo M mo n) (tcount L lo M mo n)))
+     :pattern ((tcount (store L j v) lo M mo n)))))
+;@lemma tcount_bounds
+(assert (forall ((L (Array Int Int)) (lo Int) (M (Array Int Int)) (mo Int) (n Int))
+  (! (and (>= (tcount L lo M mo n) 0) (<= (tcount L lo M mo n) (ite (<= n 0) 0 n))) :pattern ((tcount L lo M mo n)))))
